@@ -54,12 +54,18 @@ type C08Case struct {
 	// Strays: files with the notebook's / history's names in places the tool has no business with (the working
 	// directory, sibling configuration directories); the tool must neither read nor write them
 	Strays []string `json:"strays,omitempty"`
+	// Leftovers: files beside the notebook that an earlier, killed save (of this or an older version of the tool, or an
+	// editor) left behind: temporary names, backups. Each holds a long, complete-looking notebook. Whatever the tool does
+	// with such names, none of their bytes may end up in the notebook
+	Leftovers []string `json:"leftovers,omitempty"`
 	// Link: the notebook path is a symbolic link to the real file ("rel": link text relative to the link's directory,
 	// "abs": absolute), as dotfile managers set things up
 	Link string `json:"notebook_is_link,omitempty"`
 }
 
 var c08Shapes = []string{"indented", "flow", "nofinalnl", "blocklast", "crlf", "docmarker", "comments"}
+
+var c08LeftoverNames = []string{"personal.yml.tmp", "personal.yml.tmp-100001", "personal.yml.tmp-100002", "personal.yml~", "personal.yml.new", "personal.yml.bak", ".personal.yml.swp", "personal.yml.lock"}
 
 var c08StrayPaths = []string{"/home/u/work/personal.yml", "/home/u/.config/wtf/personal.yml", "/home/u/personal.yml", "/home/u/work/commands.yml", "/home/u/.config/cmd-finder/personal.yaml", "/home/u/work/search_history.json", "/home/u/.config/cmd-finder/search_history.json"}
 
@@ -170,6 +176,9 @@ func genC08(rt *rapid.T) C08Case {
 	}
 	if rapid.IntRange(0, 3).Draw(rt, "hasstrays") == 0 {
 		c.Strays = rapid.SliceOfNDistinct(rapid.SampledFrom(c08StrayPaths), 1, 3, rapid.ID[string]).Draw(rt, "strays")
+	}
+	if rapid.IntRange(0, 3).Draw(rt, "hasleftovers") == 0 {
+		c.Leftovers = rapid.SliceOfNDistinct(rapid.SampledFrom(c08LeftoverNames), 1, 3, rapid.ID[string]).Draw(rt, "leftovers")
 	}
 	stepGen := rapid.Custom(func(rt *rapid.T) C08Step {
 		st := C08Step{Kind: rapid.SampledFrom([]string{"save", "save", "save", "savepipe", "savepipe", "resave", "search", "search"}).Draw(rt, "kind")}
@@ -324,6 +333,14 @@ func runC08(c C08Case) *Outcome {
 			body = ""
 		}
 		w.disk.WriteRaw(sp, []byte(body), 0o644)
+	}
+	for _, ln := range c.Leftovers {
+		var lb strings.Builder
+		for k := 0; k < 60; k++ {
+			fmt.Fprintf(&lb, "- command: leftover-%d --from-a-killed-save\n  description: entry %d of a notebook that was never put in place\n  keywords: [leftover]\n", k, k)
+		}
+		w.disk.MkdirAllRaw(filepath.Dir(pNotebook), 0o755)
+		w.disk.WriteRaw(filepath.Join(filepath.Dir(pNotebook), ln), []byte(lb.String()), 0o600)
 	}
 	for _, d := range c08Cwds {
 		w.disk.MkdirAllRaw(d, 0o755)
